@@ -778,3 +778,42 @@ def walker_resume_problems(F):
         if not okbuf:
             out.append('%s: searched buffer is %s, not px[*offset..]' % (sw.loc(bi), short(buf)[:90]))
     return out
+
+
+def state_is_at(f, blocks, value, parser_name):
+    """On every path state reaching each block the parser state (a discriminant whose place is named ...state, or
+    that was last modified by `parser_name`) was established to be `value` - however the test is spelled
+    (match arm, matches!, ==, early return)."""
+    def is_state(k):
+        return isinstance(k, tuple) and k[0] == 'discr' and ('state' in short(k) or any(isinstance(x, tuple) and x[0] == 'modby' and x[1].endswith(parser_name) for x in walk(k)))
+
+    def stable(k):
+        return is_state(k) and not any(isinstance(x, tuple) and x[0] == 'cyc' for x in walk(k))
+    at = path_states_at(f, blocks, is_state, stable_fn=stable)
+    for b in blocks:
+        if not at[b]:
+            return False
+        for facts in at[b]:
+            if not any(is_state(k) and r_ == '==' and c_ == value for (k, r_, c_) in facts):
+                return False
+    return True
+
+
+def deep_calls(F, f, e, name_re, depth=0):
+    """call sites matching name_re that produce (part of) e in f, or that produce the values returned by closures
+    that e passes on (iterator adaptors): list of (function, receiver/first-argument expression)"""
+    out = [(f, c[2][0] if c[2] else None) for c in calls_in(e, name_re)]
+    if depth > 2:
+        return out
+    for x in walk(e):
+        if isinstance(x, tuple) and x[0] == 'agg' and str(x[1]).startswith('closure:'):
+            cid = x[1][len('closure:'):]
+            if cid in F.fns:
+                g = F.fn(cid)
+                rv = [g.ret_value(rb) for rb in g.return_blocks()]
+                if any(calls_in(v, name_re) for v in rv):
+                    for bi, t in g.calls(name_re):
+                        out.append((g, g.argv(bi, 0)))
+                for v in rv:
+                    out += [o for o in deep_calls(F, g, v, name_re, depth + 1) if o[0] is not g]
+    return out
